@@ -107,7 +107,8 @@ fn case_t<T: Sc>(rng: &mut Rng, case: u64, out: &mut CaseOut) {
                         let tol_o = (rel + 256.0 * T::EPS * kappa) * refo2 + f64::MIN_POSITIVE;
                         let r2 = rad[i] * rad[i];
                         // only where the radius itself is representable in T
-                        if refo2.sqrt() > tiny.sqrt() * 1e3 && refo2.sqrt() < huge.sqrt() {
+                        let (rmin, rmax) = if T::IS_F64 { (1e-290, 1e290) } else { (1e-35, 1e35) };
+                        if refo2.sqrt() > rmin && refo2.sqrt() < rmax {
                             let ratio_o = (r2 - refo2).abs() / tol_o;
                             worst_o = worst_o.max(ratio_o);
                         }
